@@ -250,6 +250,52 @@ func (d *delFaultStore) DelCurrent(ctx context.Context, it storage.Iter) error {
 	return d.KvStorage.DelCurrent(ctx, unwrapIter(it))
 }
 
+// BeginBatchWrite: a batch that contains a compare-and-delete is the expiry batch of the compaction's ttl pass
+// (scanner.expireEvent is the only caller of BatchWrite.DelCurrent); its Commit is ONE call of the delete-call
+// numbering (see expiryOutcome). Every other batch passes through.
+func (d *delFaultStore) BeginBatchWrite() storage.BatchWrite {
+	return &delFaultBatch{BatchWrite: d.KvStorage.BeginBatchWrite(), c: d.c}
+}
+
+type delFaultBatch struct {
+	storage.BatchWrite
+	c      *ctl
+	delCur []byte // key of the record named by DelCurrent (nil: not an expiry batch)
+	dels   int    // plain deletes in the batch
+}
+
+func (b *delFaultBatch) Del(key []byte) {
+	b.dels++
+	b.BatchWrite.Del(key)
+}
+
+func (b *delFaultBatch) DelCurrent(it storage.Iter) {
+	b.delCur = append([]byte{}, it.Key()...)
+	b.BatchWrite.DelCurrent(unwrapIter(it))
+}
+
+func (b *delFaultBatch) Commit(ctx context.Context) error {
+	if b.delCur != nil {
+		if err := expiryOutcome(b.c, b.delCur, b.dels); err != nil {
+			return err // nothing applied: the engine transaction is dropped uncommitted
+		}
+	}
+	return b.BatchWrite.Commit(ctx)
+}
+
+// expiryOutcome: the Commit of the expiry batch (compare-and-delete of the revision record `ik` + n version deletes)
+// counts as ONE call in the delete-call numbering, logged `expire:<hex ik>+<n>`; mask outcome `f` = a plain error,
+// `c` = a failed-condition error, a crash point at or before it = a plain error - nothing of the batch is applied.
+func expiryOutcome(c *ctl, ik []byte, n int) error {
+	switch delOutcome(c, fmt.Sprintf("expire:%s+%d", hx(ik), n)) {
+	case "f":
+		return errInjected
+	case "c":
+		return storage.ErrCASFailed
+	}
+	return nil
+}
+
 func (w *kvWrap) GetTimestampOracle(ctx context.Context) (uint64, error) {
 	w.c.mu.Lock()
 	st := w.c.tsoState
@@ -410,6 +456,10 @@ type batchWrap struct {
 	ops []func(storage.BatchWrite)
 	// (key, ttl) of every put / put-if-absent / compare-and-swap of this batch, for `ttllog`
 	ttls []string
+	// the expiry batch of the compaction's ttl pass (the only batch with a compare-and-delete): key of the revision
+	// record, number of plain deletes
+	delCur []byte
+	dels   int
 }
 
 func (w *kvWrap) BeginBatchWrite() storage.BatchWrite { return &batchWrap{w: w} }
@@ -427,13 +477,34 @@ func (b *batchWrap) Put(key, val []byte, ttl int64) {
 	b.ops = append(b.ops, func(i storage.BatchWrite) { i.Put(key, val, ttl) })
 }
 func (b *batchWrap) Del(key []byte) {
+	b.dels++
 	b.ops = append(b.ops, func(i storage.BatchWrite) { i.Del(key) })
 }
 func (b *batchWrap) DelCurrent(it storage.Iter) {
+	b.delCur = append([]byte{}, it.Key()...)
 	b.ops = append(b.ops, func(i storage.BatchWrite) { i.DelCurrent(unwrapIter(it)) })
 }
 
+// commitExpiry: the expiry batch is a call of the COMPACTION like its single deletes - subject to the delete-call
+// mask / crash point (here, or below the storage-metrics wrapper when delBelow), never to the client fault queue,
+// the commit gate or the ttl log.
+func (b *batchWrap) commitExpiry(ctx context.Context) error {
+	if !b.w.delBelow {
+		if err := expiryOutcome(b.w.c, b.delCur, b.dels); err != nil {
+			return err
+		}
+	}
+	inner := b.w.inner.BeginBatchWrite()
+	for _, op := range b.ops {
+		op(inner)
+	}
+	return inner.Commit(ctx)
+}
+
 func (b *batchWrap) Commit(ctx context.Context) error {
+	if b.delCur != nil {
+		return b.commitExpiry(ctx)
+	}
 	b.w.c.mu.Lock()
 	if b.w.c.ttlLogOn {
 		b.w.c.ttlLog = append(b.w.c.ttlLog, strings.Join(b.ttls, ","))
